@@ -73,7 +73,7 @@ def run_kani(job, extra_flags=(), log_suffix="", playback=False):
     try:
         mem_kb = int(job.get("mem_gb", 8) * 1024 * 1024)
         tmo = int(job.get("timeout_s", 600))
-        flags = ["-Z", "stubbing", "--target-dir", tdir, "--harness", job["name"], "--exact"]
+        flags = ["-Z", "stubbing", "--lib", "--target-dir", tdir, "--harness", job["name"], "--exact"]
         if playback:
             flags += ["-Z", "concrete-playback", "--concrete-playback=print"]
         flags += list(extra_flags)
@@ -115,6 +115,10 @@ def resolve_unwindset(job, tdir):
         for pat, n in pats.items():
             if pat in lid or pat in desc:
                 res[lid] = max(res.get(lid, 0), n)
+    # loops of CBMC's built-in C library models are linked in later and have stable ids
+    for pat, n in pats.items():
+        if pat in ("memcmp", "memchr", "strlen"):
+            res[pat + ".0"] = n
     return res
 
 
@@ -172,11 +176,12 @@ def verify(job):
     # FAILED
     unw = [c for c in p["failed_checks"] if "unwinding assertion" in c["desc"]]
     real = [c for c in p["failed_checks"] if "unwinding assertion" not in c["desc"]]
+    if unw:
+        # with an incomplete unwinding every other failed check may be an artefact of the truncated loop
+        res["reason"] = "unwinding assertion failed (bound too small for this tree): " + unw[0]["loc"]
+        return res
     if not real:
-        if unw:
-            res["reason"] = "unwinding assertion failed (bound too small for this tree): " + unw[0]["loc"]
-        else:
-            res["reason"] = "FAILED without a failed check (CBMC error / out of memory)"
+        res["reason"] = "FAILED without a failed check (CBMC error / out of memory)"
         return res
     res["status"] = "fail"
     res["reason"] = real[0]["desc"] + " @ " + real[0]["loc"]
